@@ -254,7 +254,7 @@ static std::string outcome_in_child(std::size_t tid, const std::string & bytes, 
     std::cout.flush();
     pid_t p = fork();
     if (p == 0) {
-        alarm(6);
+        alarm(15);
         std::set_terminate([] { _exit(71); });
         int rc = try_load(tid, bytes, fail_at, nullptr, mask);
         _exit(rc);
